@@ -189,6 +189,10 @@ def child_kmers(pk, rng, n, R, ktmon, work):
     for i in range(n):
         cls, s = (gen_string(rng) if i % 5 else directed_special(rng)) if i % 11 else directed_affix(rng)
         k = (i % 31) + 1
+        if i % 250 == 17:
+            # the number of items is exactly (or one off) a power of two / a typical prefetch block size
+            items = rng.choice([255, 256, 1024, 4095, 4096, 4097, 8192, 65536]) + rng.choice([0, 0, 0, -1, 1])
+            cls, s = "clean, %d-ish items" % (1 << (items.bit_length() - 1)), "".join(rng.choice(NUC) for _ in range(items + k - 1))
         cases.append({"op": "kmers", "seq": s, "k": k, "_cls": cls})
     core = core_eval(ktmon, work, cases, "kmers")
     for c, exp in zip(cases, core):
@@ -380,6 +384,36 @@ def child_header(pk, rng, n, R, ktmon, work):
             if list(got) != ref:
                 R.violate("py.header.vs_reference", "k=%d: header is not the sorted canonical k-mer list" % k, c)
                 continue
+        # results belong to the caller: editing a returned list must not change what later calls return
+        # (on the same computer, on a new computer for the same k, and for the vectors as well)
+        try:
+            oc = pk.OligoComputer(k)
+            h1 = oc.get_header()
+            want = list(h1)
+            if isinstance(h1, list):
+                h1.insert(0, "seq_id")
+                h1.append("label")
+                if h1:
+                    h1[1] = "edited"
+            h2 = list(oc.get_header())
+            h3 = list(pk.OligoComputer(k).get_header())
+            v1 = oc.vectorise_one("ACGTTGCAAGGCTTAACG", True)
+            wantv = list(v1)
+            if isinstance(v1, list) and v1:
+                v1[0] = -1.0
+                v1.append(7.0)
+            v2 = list(oc.vectorise_one("ACGTTGCAAGGCTTAACG", True))
+        except BaseException as e:  # noqa: BLE001
+            R.violate("py.header.exception", "repeated get_header / vectorise_one raised %r" % (e,), c)
+            continue
+        R.case(True, ("header-alias", k))
+        if h2 != want or h3 != want:
+            R.violate("py.header.aliased", "k=%d: after the caller edited the list returned earlier, get_header() returns %d names starting %r (expected %d starting %r)"
+                      % (k, len(h2), h2[:2], len(want), want[:2]), c)
+            continue
+        if v2 != wantv:
+            R.violate("py.oligo.aliased", "k=%d: after the caller edited a returned vector, vectorise_one returns different values for the same string" % k, c)
+            continue
         R.sample({"k": k, "columns": len(got), "first": list(got[:3])})
 
 
@@ -542,6 +576,25 @@ def child_lifetime(pk, rng, n, R, ktmon, work):
         churn(rng, nbytes)
         rest = list(it_k)
         got_m = list(it_m)
+        # the iterator obtained from a *temporary* generator object (what a for loop over KmerGenerator(...) holds):
+        # the generator itself is released right after iter(), only the iterator survives
+        it_k2 = iter(pk.KmerGenerator("".join(list(s0)), k))
+        it_m2 = iter(pk.MinimiserGenerator("".join(list(s0)), w, m))
+        gc.collect()
+        churn(rng, nbytes)
+        got_k2 = list(it_k2)
+        got_m2 = list(it_m2)
+        acc = []
+        for km in pk.KmerGenerator("".join(list(s0)), k):
+            if len(acc) == 1:
+                churn(rng, nbytes)
+            acc.append(km)
+        if got_k2 != exp_k or acc != exp_k:
+            R.violate("py.lifetime.kmers.temporary", "iterating a temporary KmerGenerator (iter() / for loop) yields different tuples once the generator object is released", case)
+            continue
+        if got_m2 != exp_m:
+            R.violate("py.lifetime.min.temporary", "iterating a temporary MinimiserGenerator yields different runs once the generator object is released", case)
+            continue
         if first + rest != exp_k:
             R.violate("py.lifetime.kmers", "k-mer iterator output changed after the source string was released and the heap churned", case)
             continue
@@ -623,6 +676,32 @@ def child_large(pk, rng, n, R, ktmon, work):
         R.case(True, ("large-iter", i))
         if cnt != 2 * (70000 - 30):
             R.violate("py.large.kmers", "%d k-mers from A*70000 N C*70000 at k=31, expected %d" % (cnt, 2 * (70000 - 30)), {"k": 31})
+        # minimisers of a string longer than 1 MiB made of several N-separated stretches (any "long input" path that
+        # splits the work): the runs of the whole string must be, left to right, the runs of each stretch — each stretch
+        # is itself shorter than 1 MiB and goes through the ordinary path — shifted by the stretch's offset
+        segs = ["".join(rng.choice(NUC) for _ in range(rng.randint(150_000, 420_000))) for _ in range(rng.randint(3, 6))]
+        while sum(len(x) for x in segs) < (1 << 20) + 5000:
+            segs.append("".join(rng.choice(NUC) for _ in range(300_000)))
+        m = rng.choice([5, 10, 15])
+        w = m + rng.choice([0, 5, 16])
+        seps = [rng.choice(["N", "NN", "n", "-"]) for _ in segs]
+        whole = "".join(a + b for a, b in zip(segs, seps))
+        R.case(True, ("large-min", len(whole), w, m))
+        case = {"seq": "%d random stretches of %s bases separated by ambiguous characters (total %d)" % (len(segs), [len(x) for x in segs], len(whole)), "w": w, "m": m}
+        try:
+            got = [tuple(x) for x in pk.MinimiserGenerator(whole, w, m)]
+            exp = []
+            off = 0
+            for a, b in zip(segs, seps):
+                exp.extend((v, st + off, en + off) for (v, st, en) in pk.MinimiserGenerator(a, w, m))
+                off += len(a) + len(b)
+        except BaseException as e:  # noqa: BLE001
+            R.violate("py.large.exception", "MinimiserGenerator raised %r" % (e,), case)
+            continue
+        if got != exp:
+            same_set = sorted(got) == sorted(exp)
+            R.violate("py.large.min" + (".order" if same_set else ""), "%d runs from the whole string, %d from its stretches; same multiset: %s; first difference at %s" % (
+                len(got), len(exp), same_set, next((j for j, (x, y) in enumerate(zip(got, exp)) if x != y), min(len(got), len(exp)))), case)
 
 
 def child_acgt(pk, rng, n, R, ktmon, work):
@@ -809,7 +888,7 @@ def main():
     for g in range(groups):
         out = os.path.join(opts["--work"], "pychild-%s-%d-%d.json" % (stage, g, os.getpid()))
         env = dict(os.environ)
-        env["RAYON_NUM_THREADS"] = ["1", "2", "16", "5"][g % 4]
+        env["RAYON_NUM_THREADS"] = ["2", "1", "16", "5"][g % 4]
         env["PYTHONHASHSEED"] = "0"
         prefix = []
         if under_vg:
